@@ -472,8 +472,8 @@ func runR55(c *Ctx) {
 			arg := call.Call.Args[1]
 			switch t := arg.(type) {
 			case *ssa.Const:
-				if fn.Name() == "Sort" {
-					c.ok(key, p.instrPos(call), "Sort: null-vs-null ties are irrelevant for ordering (constant)")
+				if !r55TakesGroupOptions(p, fn, map[*ssa.Function]bool{}, 0) {
+					c.ok(key, p.instrPos(call), "not on a path from an operation that takes groupby options (Sort: null-vs-null ties are irrelevant for ordering)")
 				} else {
 					c.bad(key, p.instrPos(call), "a constant is passed as equalNull outside Sort: the groupby.Null option is ignored on this path")
 				}
@@ -522,6 +522,60 @@ func runR55(c *Ctx) {
 			}
 		})
 	}
+}
+
+// r55TakesGroupOptions: fn, or a function it is called from, receives groupby options (a parameter of a type of
+// package config/groupby, or a call of its NewConfig): the Null option exists on this path.
+func r55TakesGroupOptions(p *Prog, fn *ssa.Function, seen map[*ssa.Function]bool, d int) bool {
+	if seen[fn] {
+		return false
+	}
+	seen[fn] = true
+	fromGroupby := func(t types.Type) bool {
+		found := false
+		var walk func(t types.Type, d int)
+		walk = func(t types.Type, d int) {
+			if d > 4 || found {
+				return
+			}
+			switch u := t.(type) {
+			case *types.Named:
+				if o := u.Obj(); o.Pkg() != nil && o.Pkg().Path() == rel("config/groupby") {
+					found = true
+				}
+			case *types.Slice:
+				walk(u.Elem(), d+1)
+			case *types.Pointer:
+				walk(u.Elem(), d+1)
+			}
+		}
+		walk(t, 0)
+		return found
+	}
+	for _, prm := range fn.Params {
+		if fromGroupby(prm.Type()) {
+			return true
+		}
+	}
+	takes := false
+	eachInstr(fn, func(in ssa.Instruction) {
+		if call, ok := in.(*ssa.Call); ok && isFuncNamed(calleeObj(call), rel("config/groupby"), "", "NewConfig") {
+			takes = true
+		}
+	})
+	if takes {
+		return true
+	}
+	sites, asValue := p.staticCallSites(fn)
+	if asValue || d > 5 {
+		return true // callers unknown: assume the worst
+	}
+	for _, s := range sites {
+		if r55TakesGroupOptions(p, s.Parent(), seen, d+1) {
+			return true
+		}
+	}
+	return false
 }
 
 func init() {
@@ -1731,6 +1785,14 @@ func runR71(c *Ctx) {
 						return false, false
 					}
 					pe.oracle = func(pe *pathExec, cond ssa.Value) (bool, bool) { return pe.evalBool(cond, atom) }
+					// a helper of the package that answers `was the type still unknown`: evaluated in place
+					pe.inline = func(callee *ssa.Function) bool {
+						if callee.Pkg != fn.Pkg || callee.Signature.Results().Len() != 1 {
+							return false
+						}
+						b, ok := callee.Signature.Results().At(0).Type().Underlying().(*types.Basic)
+						return ok && b.Kind() == types.Bool
+					}
 					pe.onInstr = func(pe *pathExec, in ssa.Instruction) {
 						if in == ssa.Instruction(call) {
 							if es := appendedElems(call); len(es) == 1 {
@@ -2061,7 +2123,7 @@ func runR73(c *Ctx) {
 					if b, ok := nilTestOfStrPtr(g.Cond); ok && (b.Op == token.EQL) == g.Val {
 						underNil = true
 					}
-					if fieldNameOfLoad(g.Cond) == "EmptyNull" && g.Val {
+					if g.Val && p.isEmptyNullValue(g.Cond, 0) {
 						underEmptyNull = true
 					}
 				}
@@ -2089,7 +2151,7 @@ func runR73(c *Ctx) {
 						underNotNil = true
 					}
 				}
-				if fieldNameOfLoad(g.Cond) == "EmptyNull" && g.Val {
+				if g.Val && p.isEmptyNullValue(g.Cond, 0) {
 					underEmptyNull = true
 				}
 			}
@@ -2112,7 +2174,7 @@ func runR73(c *Ctx) {
 					c.bad(key, pos, "a cell is marked null without a dominating test that its source pointer is nil")
 				}
 			case isConstBool(flag, false):
-				if !hasPtrSource || underNotNil || hasEmptyNullElse(guards) {
+				if !hasPtrSource || underNotNil || hasEmptyNullElse(p, guards) {
 					c.ok(key, pos, "non-null: the source cannot be nil here")
 				} else {
 					c.bad(key, pos, "a cell is marked non-null although its *string source is not known to be non-nil at this point")
@@ -2120,6 +2182,8 @@ func runR73(c *Ctx) {
 			default:
 				if _, ok := nilTestOfStrPtr(flag); ok {
 					c.ok(key, pos, "the flag is the nil test of the source pointer")
+				} else if !hasPtrSource && p.impliesEmptyNull(flag) {
+					c.ok(key, pos, "the flag is a conjunction with the EmptyNull option: a cell is null only when the option is set")
 				} else {
 					c.bad(key, pos, fmt.Sprintf("the null flag is computed from %s, not from the nilness of the source pointer: an empty string becomes null (or a null an empty string)", describe(flag)))
 				}
@@ -2128,9 +2192,9 @@ func runR73(c *Ctx) {
 	}
 }
 
-func hasEmptyNullElse(guards []guard) bool {
+func hasEmptyNullElse(p *Prog, guards []guard) bool {
 	for _, g := range guards {
-		if fieldNameOfLoad(g.Cond) == "EmptyNull" {
+		if p.isEmptyNullValue(g.Cond, 0) {
 			return true
 		}
 	}
